@@ -10,7 +10,7 @@ Not decided: nearest-ness, strict interiority, panic freedom of the sweep.
 """
 import re
 from ..facts import Facts, short
-from ..symex import Symex, Unanalysable, show, show_pc, bare
+from ..symex import Symex, Unanalysable, show, show_pc, bare, logging_off
 from .c01 import opaque, calls_of
 
 LEVEL = "other"
@@ -31,6 +31,8 @@ def run(rep, tier):
     interior_point(rep, F)
     closest_tables(rep, F, tier)
     scan_line_height(rep, F)
+    sweep_neighbours(rep, F)
+    ordered_crossing(rep, F)
     # "Intersection(p) exactly when p intersects g": the point-in-geometry kernels that closest_point's guard resolves to (tables shared with C02)
     from . import c02_kernels, c02_linear
     c02_kernels.run(rep, F, tier, only={"Triangle∩Coord", "Line∩Coord", "Rect∩Coord", "ring-step", "polygon-composition"}, rule="R12.4")
@@ -497,3 +499,272 @@ def scan_line_height(rep, F):
         rep.ok("R12.6", "scan-height[mid-height and %d adjusted form(s)]" % n_adj)
     else:
         rep.bad("R12.6", "scan-height:rows", "expected both the mid-height and the adjusted height among the scan lines, found %d / %d" % (n_mid, n_adj), where=fn.loc())
+
+
+# ------------------------------------------------------------------------------------------------ R12.7
+def _calls_in(t, suffix, out, depth=0):
+    if isinstance(t, tuple) and depth < 40:
+        if t and t[0] == "call" and len(t) == 3 and isinstance(t[1], str) and t[1].endswith(suffix):
+            out.append(t)
+        for x in t:
+            _calls_in(x, suffix, out, depth + 1)
+    return out
+
+
+def _seg_of(t):
+    """the opaque segment a term such as geom(&opaque(s2).0) speaks about, or None"""
+    found = set()
+
+    def walk(x, d=0):
+        if isinstance(x, tuple) and d < 40:
+            if x and x[0] == "opaque" and isinstance(x[1], str):
+                found.add(x[1])
+            for y in x:
+                walk(y, d + 1)
+    walk(t)
+    return found.pop() if len(found) == 1 else None
+
+
+def sweep_neighbours(rep, F, rule="R12.7"):
+    """The Bentley-Ottmann step of the sweep that interior_point's scan line runs on (sweep::proc::Sweep::handle_event), on an active list of
+    3..5 abstract segments with the list position of the event's segment given: when a segment ends, the pair tested for a crossing is
+    exactly the two segments that become adjacent (the one directly below and the one directly above the removed one, none when it was the
+    lowest or the highest), and the list afterwards is the old one without that segment; a point event is tested against exactly the two
+    segments around its position.  A crossing between two segments that are never tested is never reported - the scan line of
+    interior_point then misses a boundary crossing and the midpoint candidates are not inside."""
+    rep.rule(rule, "sweep::Sweep::handle_event on an abstract active list (3..5 segments, every position): a right-end event tests exactly the pair (below, above) of the removed segment "
+                   "and leaves the list without it; a point event tests exactly its two neighbours")
+    try:
+        fn = F.one(r"^geo::algorithm::sweep::proc::Sweep::<C>::handle_event$", crates=("geo",))
+    except KeyError as e:
+        rep.bad(rule, "sweep-step:anchor", str(e))
+        return
+    SW = "geo::algorithm::sweep::proc::Sweep"
+    VS = "geo::algorithm::sweep::vec_set::VecSet"
+    EV = "geo::algorithm::sweep::events::Event"
+    ET = "geo::algorithm::sweep::events::EventType"
+    try:
+        sw_fields = [f["name"] for f in F.adts[SW]["variants"][0]["fields"]]
+        ev_fields = [f["name"] for f in F.adts[EV]["variants"][0]["fields"]]
+    except (KeyError, IndexError) as e:
+        rep.bad(rule, "sweep-step:anchor", "layout of Sweep / Event not found (%s)" % e)
+        return
+    if set(sw_fields) != {"is_simple", "events", "active_segments"} or set(ev_fields) != {"point", "ty", "payload"}:
+        rep.bad(rule, "sweep-step:anchor", "Sweep / Event have other fields than the rule knows: %s / %s" % (sw_fields, ev_fields))
+        return
+
+    def _r(st, v):
+        yield st, "ret", v
+    n_ok = 0
+    for n in (3, 4, 5):
+        for k in range(n + 1):
+            for ty in ("LineRight", "PointLeft", "LineLeft"):
+                if ty == "LineRight" and k >= n:
+                    continue
+                if ty == "LineLeft" and n > 3:
+                    continue
+                names = ["s%d" % i for i in range(n)]
+                segs = tuple(("opaque", s) for s in names)
+                the_seg = ("opaque", names[k]) if ty == "LineRight" else ("opaque", "pt_seg")
+                by = {"is_simple": ("const", False), "events": ("opaque", "events"),
+                      "active_segments": ("adt", VS, "VecSet", (("call", "vec!", (("array", segs),)),))}
+                sweep = ("adt", SW, "Sweep", tuple(by[f] for f in sw_fields))
+                eb = {"point": ("opaque", "pt"), "ty": ("adt", ET, ty, ()), "payload": the_seg}
+                event = ("adt", EV, "Event", tuple(eb[f] for f in ev_fields))
+                ex = Symex(F, concrete_iters=True, loop_bound=2, max_paths=20000, budget_s=60,
+                           no_inline=[r"intersect_line_ordered$", r"adjust_one_segment$", r"::geom$", r"::overlap$", r"IMSegment.*::is_correct$",
+                                      r"Sweep::<C>::handle_event$", r"set_left_event_done$"])
+                ex.fold_ground_eq = True
+                logging_off(ex)
+                hooked = 0
+                for key in F.fns:
+                    if "vec_set::VecSet" in key and (key.endswith("::index_of") or key.endswith("::index_not_of")):
+                        ex.models[key] = lambda ex_, st, call, args, k=k: _r(st, ("const", k))
+                        hooked += 1
+                if ty == "LineLeft":
+                    # the no-crossing run of the insertion step: every crossing test answers None and is recorded
+                    def m_isect(ex_, st, call, args):
+                        st.notes.append(("isect", ex_.canon(st, args[0]), ex_.canon(st, args[1])))
+                        return _r(st, ("adt", "core::option::Option", "None", ()))
+                    for key in F.fns:
+                        if key.endswith("::intersect_line_ordered"):
+                            ex.models[key] = m_isect
+                            hooked += 1
+                    hooked -= 1
+                if hooked < 2:
+                    rep.bad(rule, "sweep-step:anchor", "VecSet::index_of / index_not_of not found")
+                    return
+                try:
+                    paths = ex.run(fn, args=[("arg", 1), event, ("arg", 3)], mem={("arg", 1): sweep})
+                except Unanalysable as e:
+                    rep.bad(rule, "sweep-step:unanalysable", "%s at position %d of %d: %s" % (ty, k, n, e), where=fn.loc())
+                    return
+                rets = [p for p in paths if p.kind == "ret"]
+                if ty == "LineRight":
+                    want = {(names[k - 1], names[k + 1])} if 0 < k < n - 1 else set()
+                    want_list = names[:k] + names[k + 1:]
+                elif ty == "LineLeft":
+                    want = {("pt_seg", names[j]) for j in (k, k - 1) if 0 <= j < n}
+                    want_list = names[:k] + ["pt_seg"] + names[k:]
+                else:
+                    want = {("pt_seg", names[j]) for j in (k - 1, k) if 0 <= j < n}
+                    want_list = names
+                seen = set()
+                full = 0
+                for p in rets:
+                    got = set()
+                    for t, _v in p.pc:
+                        for c in _calls_in(t, "::intersect_line_ordered", []):
+                            got.add((_seg_of(c[2][0]), _seg_of(c[2][1])))
+                    for nt in p.notes:
+                        if isinstance(nt, tuple) and nt and nt[0] == "isect":
+                            got.add((_seg_of(nt[1]), _seg_of(nt[2])))
+                    # paths that return before the step proper (a stale event: is_correct false) test nothing and change nothing
+                    if any(show(t).find("is_correct") >= 0 and v == 0 for t, v in p.pc):
+                        continue
+                    seen |= got
+                    if got == want:
+                        full += 1
+                    if not got <= want:
+                        extra = sorted(got - want)[0]
+                        rep.bad(rule, "sweep-step:%s:pair" % ty, "%s event for the segment at position %d of the active list [%s]: the crossing test is run on (%s, %s); the segments that %s are %s" % (
+                            ty, k, ", ".join(names), extra[0], extra[1], "become adjacent" if ty == "LineRight" else "surround the point",
+                            " and ".join("(%s, %s)" % w for w in sorted(want)) or "none (it is the lowest / highest one)"), where=fn.loc())
+                        return
+                    fin = p.st.mem.get(("S", ("arg", 1)))
+                    fin = ex.canon(p.st, fin) if fin is not None else None
+                    lst = None
+                    if fin is not None and fin[0] == "adt":
+                        act = fin[3][sw_fields.index("active_segments")]
+                        arr = _calls_in(act, "vec!", [])
+                        if arr and arr[0][2] and arr[0][2][0][0] == "array":
+                            lst = [_seg_of(x) for x in arr[0][2][0][1]]
+                    if lst != want_list:
+                        rep.bad(rule, "sweep-step:%s:list" % ty, "%s event for the segment at position %d of [%s]: the active list afterwards is %s, expected [%s]" % (
+                            ty, k, ", ".join(names), lst, ", ".join(want_list)), where=fn.loc())
+                        return
+                if want and not full:
+                    rep.bad(rule, "sweep-step:%s:untested" % ty, "%s event for the segment at position %d of [%s]: no path tests %s for a crossing (pairs tested: %s)" % (
+                        ty, k, ", ".join(names), " and ".join("(%s, %s)" % w for w in sorted(want)), sorted(seen) or "none"), where=fn.loc())
+                    return
+                if not rets:
+                    rep.bad(rule, "sweep-step:%s:no-path" % ty, "no returning path at position %d of %d" % (k, n), where=fn.loc())
+                    return
+                n_ok += 1
+    rep.ok(rule, "sweep-step[%d (event kind, list length, position) cases]" % n_ok)
+
+
+# ------------------------------------------------------------------------------------------------ R12.8
+def ordered_crossing(rep, F, rule="R12.8"):
+    """LineOrPoint::intersect_line_ordered(self, other) with the crossing computed by intersect_line given as a witness point p (p.x >= the x of
+    self's left end - the crossing is clamped to the segments' envelopes): the point handed back to the sweep never sorts before self's left end in
+    sweep order (x, then y).  The sweep has already passed that point; an event queued before it makes the ordering of the active list
+    inconsistent (partial_cmp(..).unwrap() on None in release builds, a debug assertion otherwise) - interior_point then panics on a valid
+    polygon.  The answers of the segment ordering (partial_cmp of two LineOrPoint) are left open: every path consistent with the witness is checked."""
+    import math
+    from ..numeval import NumEval
+    from ..evalterm import Enum, NoModel
+    rep.rule(rule, "intersect_line_ordered (crossing point given as a witness, every consistent path): the point returned does not sort before self.left() in sweep order, "
+                   "also when the computed crossing has the x of self's left end and a smaller y")
+    try:
+        fn = F.one(r"sweep::line_or_point::LineOrPoint::<T>::intersect_line_ordered$", crates=("geo",))
+    except KeyError as e:
+        rep.bad(rule, "ordered-crossing:anchor", str(e))
+        return
+    LOP = "geo::algorithm::sweep::line_or_point::LineOrPoint"
+    SP = "geo::algorithm::sweep::point::SweepPoint"
+    CO = GT + "coord::Coord"
+    if LOP not in F.adts or SP not in F.adts:
+        rep.bad(rule, "ordered-crossing:anchor", "LineOrPoint / SweepPoint not found")
+        return
+
+    def sp(name):
+        return ("adt", SP, "SweepPoint", (("adt", CO, "Coord", (("opaque", name + ".x"), ("opaque", name + ".y"))),))
+    line = lambda tag: ("&", ("adt", LOP, "Line", (sp(tag + "l"), sp(tag + "r"))))
+    ex = Symex(F, loop_bound=2, max_paths=20000, budget_s=60, inline_crates=("geo", "geo_types"),
+               no_inline=[r"LineOrPoint.*::intersect_line$", r"<.*LineOrPoint<T> as core::cmp::PartialOrd>::partial_cmp$"])
+    logging_off(ex)
+
+    def _r(st, v):
+        yield st, "ret", v
+    crossing = ("adt", "core::option::Option", "Some", (("adt", LOP, "Point", (sp("p"),)),))
+    hooked = 0
+    for key in F.fns:
+        if key.endswith("LineOrPoint::<T>::intersect_line"):
+            ex.models[key] = lambda ex_, st, call, args: _r(st, crossing)
+            hooked += 1
+    if not hooked:
+        rep.bad(rule, "ordered-crossing:anchor", "LineOrPoint::intersect_line not found")
+        return
+    try:
+        paths = [p for p in ex.run(fn, args=[line("s"), line("o")]) if p.kind != "cut"]
+    except Unanalysable as e:
+        rep.bad(rule, "ordered-crossing:unanalysable", str(e), where=fn.loc())
+        return
+
+    class Ev(NumEval):
+        def call(self, t):
+            m = t[1].rsplit("::", 1)[-1]
+            if m == "next_after" and len(t[2]) == 2:
+                return math.nextafter(float(self.ev(t[2][0])), float(self.ev(t[2][1])))
+            if m == "infinity":
+                return math.inf
+            if m == "neg_infinity":
+                return -math.inf
+            if m == "total_cmp" and len(t[2]) == 2:
+                a, b = self.ev(t[2][0]), self.ev(t[2][1])
+                return Enum("core::cmp::Ordering", "Less" if a < b else "Greater" if a > b else "Equal")
+            return NumEval.call(self, t)
+    n = 0
+    sl = (1.0, 1.0)
+    for ol in ((0.0, 0.0), (0.0, 2.0), (1.0, 1.0), (1.0, 0.0), (1.0, 2.0), (-3.0, 1.0)):
+        for pt in ((1.0, 0.0), (1.0, 0.5), (1.0, 1.0), (1.0, 2.0), (2.0, 0.0), (2.0, 1.0), (2.0, 3.0), (1.5, -4.0)):
+            env = {}
+            for tag, (x, y) in (("sl", sl), ("ol", ol), ("p", pt), ("sr", (5.0, 0.0)), ("or", (5.0, 3.0))):
+                env[("opaque", tag + ".x")] = x
+                env[("opaque", tag + ".y")] = y
+            ev = Ev(F, env)
+            checked = 0
+            for p in paths:
+                consistent = True
+                for t, v in p.pc:
+                    try:
+                        val = ev.ev(t)
+                    except (NoModel, KeyError, TypeError, AttributeError, IndexError):
+                        continue             # an answer of the segment ordering: left open
+                    if isinstance(val, bool):
+                        val = 1 if val else 0
+                    if isinstance(val, Enum):
+                        val = ev.discr_of(val)
+                    if isinstance(v, tuple) and v and v[0] == "notin":
+                        if val in v[1]:
+                            consistent = False
+                            break
+                    elif val != v:
+                        consistent = False
+                        break
+                if not consistent or p.kind != "ret":
+                    continue
+                try:
+                    r = ev.ev(p.ret)
+                except (NoModel, KeyError, TypeError, AttributeError, IndexError) as e:
+                    rep.bad(rule, "ordered-crossing:non-abstractable", "the point returned cannot be evaluated from the crossing and the end points (%s)" % e, where=fn.loc())
+                    return
+                if not (isinstance(r, Enum) and r.variant == "Some" and isinstance(r.payload[0], Enum) and r.payload[0].variant == "Point"):
+                    continue
+                c = r.payload[0].payload[0]
+                while isinstance(c, dict) and "0" in c:
+                    c = c["0"]
+                while isinstance(c, (list, tuple)) and len(c) == 1:
+                    c = c[0]
+                got = (c["x"], c["y"])
+                checked += 1
+                if got < sl:
+                    rep.bad(rule, "ordered-crossing:before-left", "self = LINE(%s -> ..), other = LINE(%s -> ..), computed crossing %s: intersect_line_ordered returns the point %s, which sorts before self's left end %s" % (
+                        sl, ol, pt, got, sl), where=fn.loc())
+                    return
+            if not checked:
+                rep.bad(rule, "ordered-crossing:no-row", "no returning path is consistent with self.left = %s, other.left = %s, crossing %s" % (sl, ol, pt), where=fn.loc())
+                return
+            n += checked
+    rep.ok(rule, "ordered-crossing[%d (witness, path) pairs, %d paths]" % (n, len(paths)))
